@@ -97,7 +97,14 @@ pub fn err_key(e: &asca::Error) -> String {
     format!("{}::{}", j["class"].as_str().unwrap(), j["variant"].as_str().unwrap())
 }
 
+thread_local! { pub static LAST_PANIC: std::cell::RefCell<String> = const { std::cell::RefCell::new(String::new()) }; }
+
 pub fn panic_msg(p: &Box<dyn std::any::Any + Send>) -> String {
+    let loc = LAST_PANIC.with(|c| c.borrow().clone());
+    format!("{} @ {}", panic_text(p), loc)
+}
+
+pub fn panic_text(p: &Box<dyn std::any::Any + Send>) -> String {
     if let Some(b) = p.downcast_ref::<v::BudgetExhausted>() { return format!("BUDGET site={} ticks={}", b.site, b.ticks); }
     if let Some(s) = p.downcast_ref::<&str>() { return s.to_string(); }
     if let Some(s) = p.downcast_ref::<String>() { return s.clone(); }
